@@ -126,6 +126,34 @@ def dynamics_of(pt, steps=None):
     return np.array(dyn.states)
 
 
+def combined_ok(pt, imp):
+    """original and imported process tensor as two environments of one system against the
+    original twice; (ok, detail)"""
+    import oqupy
+    from oqupy import operators as op
+    if pt.hilbert_space_dimension != 2:
+        return True, ""
+    h = 0.3 * op.sigma("x") + 0.1 * op.sigma("z")
+
+    def run(pts):
+        dyn = oqupy.compute_dynamics(system=oqupy.System(h), initial_state=op.spin_dm("y+"),
+                                     process_tensor=pts, dt=None if pt.dt is not None else 0.1,
+                                     progress_type="silent")
+        return np.array(dyn.states)
+    try:
+        ref = run([pt, pt])
+    except Exception:
+        return True, ""            # this process tensor cannot be used twice anyway
+    try:
+        got = run([pt, imp])
+    except Exception as e:
+        return False, "two environments (original + imported): compute_dynamics raises %s: %s" % (
+            type(e).__name__, str(e)[:80])
+    if ref.shape != got.shape or np.max(np.abs(ref - got)) > 1e-12 * max(1.0, np.max(np.abs(ref))):
+        return False, "two environments (original + imported): states differ"
+    return True, ""
+
+
 def same_dynamics(pt_a, pt_b):
     """(ok, detail): dynamics of pt_b against those of pt_a (1e-12)"""
     try:
@@ -333,6 +361,12 @@ def pt_specs(tier, rng):
     specs.append(gen_pt_spec(rng, length=3, rank=4, with_tr=True, with_dt=True, named=True))
     specs.append(gen_pt_spec(rng, length=2, rank=4, with_tr=True, with_dt=False, named=False))
     specs.append(gen_pt_spec(rng, length=2, rank=3, dim=3, max_bond=2))
+    # time steps that no short decimal represents, and a very small one (SI units): dt must come
+    # back as the same binary64
+    for dt in (1.0 / 3.0, 2.5e-15, np.pi / 40):
+        sp = gen_pt_spec(rng, length=2, rank=3, max_bond=2, with_tr=False, with_dt=True)
+        sp["dt"] = float(dt)
+        specs.append(sp)
     # square (4x4), non-involutory transforms: a tensor rotated twice still has the right shape
     specs.append(gen_pt_spec(rng, length=3, rank=4, with_tr="both", max_bond=2, square=True))
     # exactly one of the two transforms (the constructors allow it)
@@ -414,6 +448,8 @@ def correspondence(res, tier, rng):
                     "import " + kind)
                 if obj is not None:
                     ok, detail = same_dynamics(pt, obj)
+                    if ok:
+                        ok, detail = combined_ok(pt, obj)
                     usable_checks.append((len(lines) - 1, kind, i, ok, detail))
                     if kind == "file":
                         _close(obj)
@@ -761,6 +797,12 @@ def judge_roundtrip(spec, kinds=("file", "simple")):
                              "how": "export() a process tensor without initial tensor, "
                                     "import_process_tensor(file, %r).get_initial_tensor() "
                                     "returns %r" % (kind, ini)}))
+            ok, detail = combined_ok(pt, imp)
+            if not ok:
+                bad.append(("import-%s:combined-with-original" % kind,
+                            {"pt": spec, "import_type": kind, "detail": detail,
+                             "dt_original": pt.dt, "dt_imported": imp.dt,
+                             "how": "compute_dynamics(process_tensor=[original, imported])"}))
             ok, detail = same_dynamics(pt, imp)
             if not ok:
                 bad.append(("import-%s:compute_dynamics:%s" % (kind, detail.split(" ")[-1]
